@@ -151,16 +151,14 @@ class M(Model):
             return []
         out = list(self.constraints(s))
         flags = np.asarray(s.finished_agents).astype(bool).tolist()
-        if not all(flags):
-            out.append(("every agent reached all its nodes but finished_agents says otherwise",
-                        f"finished_agents={flags} step_count={int(s.step_count)} time_limit={self.T} "
-                        f"position_index={np.asarray(s.position_index).tolist()}"))
         cn = np.asarray(s.connected_nodes, np.int64)
-        for a in range(self.A):
-            missing = [x for x in self._todo(s, a) if x not in set(cn[a].tolist())]
-            if missing:
-                out.append(("final route (connected_nodes) lacks a node the agent connected",
-                            f"agent {a}: nodes {missing} not in route {cn[a].tolist()} (time_limit={self.T})"))
+        missing = {a: [x for x in self._todo(s, a) if x not in set(cn[a].tolist())] for a in range(self.A)}
+        missing = {a: v for a, v in missing.items() if v}
+        if not all(flags) or missing:
+            out.append(("every agent reached all its nodes but finished_agents / connected_nodes do not show it",
+                        f"finished_agents={flags} nodes missing from connected_nodes={missing} "
+                        f"step_count={int(s.step_count)} time_limit={self.T} "
+                        f"position_index={np.asarray(s.position_index).tolist()}"))
         return out
 
     # ------------------------------------------------------------------------------ C08
@@ -267,6 +265,7 @@ class M(Model):
             out.append(("initial step_count != 0", str(int(s0.step_count))))
         if np.asarray(s0.finished_agents).any():
             out.append(("agent finished at reset", ""))
+        structural = len(out)
         # advertised size parameters
         n_edges = int(np.triu(adj | adj.T, 1).sum())
         if self.num_edges >= 0 and n_edges != self.num_edges:
@@ -282,7 +281,7 @@ class M(Model):
                 out.append(("node_edges differs from the adjacency matrix at reset", f"agent {a}"))
                 break
         self._validated += 1
-        if not out and self._validated % self.REPLAY_EVERY == 1:
+        if not structural and self._validated % self.REPLAY_EVERY == 1:
             out += self._replay_dfs(s0, adj)
         return out
 
@@ -369,3 +368,21 @@ class M(Model):
                             f"node {v}: type {int(types[v])} connected by {who}: obs {int(got[v])} expected {want}"))
                 break
         return out
+
+
+# ------------------------------------------------------------------------------ C10 extra configs
+def _mmst(n, e, dg, a, k, t):
+    def make():
+        from jumanji.environments import MMST
+        from jumanji.environments.routing.mmst.generator import SplitRandomGenerator
+
+        return MMST(generator=SplitRandomGenerator(num_nodes=n, num_edges=e, max_degree=dg, num_agents=a,
+                                                   num_nodes_per_agent=k, max_step=t), time_limit=t)
+    return make
+
+
+EXTRA_INSTANCE_CONFIGS = {
+    "x_n12e14a3k3t40": _mmst(12, 14, 5, 3, 3, 40),   # 3 agents on 12 nodes, 9 of 12 nodes typed (limit 0.8 * 12 = 9.6)
+    "x_n10e9a2k4t40": _mmst(10, 9, 5, 2, 4, 40),     # minimum number of edges (a tree), 8 of 10 nodes typed
+    "x_n13e20a3k2t40": _mmst(13, 20, 4, 3, 2, 40),   # node count not divisible by the number of agents, max_degree 4
+}
